@@ -25,7 +25,7 @@ from harness.lib import gen as G
 from harness.lib import vtloop
 
 RULE = ('histories of 15..60 events on a started SvsInst (sync_interval in {1.25,2.5,5,30} s, suppression_interval in '
-        '{0.25,0.5,1,2} s, last_used_seq_num in {0,1,5,2^32,2^63}, 0..2 publications before start): received vectors '
+        '{0.25,0.5,1,2} s, last_used_seq_num in {0,1,5,255,65535,2^32-1,2^32,2^63}, 0..2 publications before start): received vectors '
         'newer / older / equal / incomparable / subset / unknown-node / over-claiming / self-ok / duplicate ids / '
         'entries without name or without sequence number / byte-mutated / random bytes / wrong name length; '
         'hand-encoded vectors (no library encoder): one entry of every presence shape {Name only, SeqNo only, empty entry, '
@@ -34,7 +34,13 @@ RULE = ('histories of 15..60 events on a started SvsInst (sync_interval in {1.25
         'as directed sweeps from one state; the oracle reads every received component of canonical layout off the wire itself '
         '(accepted / denote are evaluated on those entries, not on what the library decoded); '
         'publications; clock moves that stop short of, hit exactly, or pass the timer; directed suppression windows '
-        '(opener + 1..3 further vectors + expiry).  One case = one micro-step; non-trivial = it changed or read a '
+        '(opener + 1..3 further vectors + expiry); sequence numbers of every width: for each edge 2^8, 2^16, 2^24, 2^32, 2^40, 2^56, '
+        '2^63, 2^64 directed histories in which the own counter starts 1..5 below the edge and crosses it by publishing (at 2^64: '
+        'ends exactly at 2^64-1) while peers announce edge-1, edge, a random value of the next width and 2^64-1 for other nodes '
+        '(library-encoded or hand-encoded), each followed by a timer expiry, a publication or a suppression window; an input vector '
+        'the library encoder refuses is written by hand; after every step the timer task of the running instance must be alive '
+        '(an exception that ended it is the observation), a steady expiry must emit exactly one sync Interest, new_data() must not '
+        'raise.  One case = one micro-step; non-trivial = it changed or read a '
         'vector (accepted/rejected vector, publication, timer expiry); distinct by (state, event) hash')
 ASSUMPTIONS = [
     'time is counted in ticks of 2**-18 s; the float arithmetic of sample_sync_timer/sample_sup_timer is exact to far '
